@@ -8,17 +8,19 @@
    (the harness logs the same accesses on the real hub and compares).
 
    The model follows the repaired code (fix commits `register callbacks before
-   publication`, `publish under the lock`):
+   publication`, `publish under the lock`, `recv checks and pops under one lock
+   acquisition`):
      connect    : with lock: [rcb[k]:=me; lcb[k]:=me]; open.add k; remote.add k
                   poll: rk in open -> return | rk in remote -> return | sleep
      send m     : k in open? ; rk in open? (else ConnectionError) ; c := rcb.get rk ;
                   c = Some cb -> cb(m)   | None -> with lock: q := messages[rk]; q.append m
-     recv       : with lock: q := messages[k] ; len q = 0 -> (non-blocking: RuntimeError
-                  | blocking: sleep, again) ; else with lock: q.pop(0)
+     recv       : with lock: q := messages[k]; if len q > 0: q.pop(0), return it ;
+                  then (non-blocking: RuntimeError | blocking: sleep, again)
      disconnect : with lock: c := lcb.get rk; c(); if k in open: open.remove k;
                   if rk in remote: remote.remove rk; rcb.pop k; lcb.pop k
    `variant` Orig keeps the statement order of the unrepaired connect (open.add;
-   remote.add; callbacks; no lock) so that the old defects stay expressible.
+   remote.add; callbacks; no lock) and the unrepaired recv (with lock: q := messages[k];
+   len q outside the lock; with lock: pop) so that the old defects stay expressible.
 
    No proofs in this file. *)
 From Coq Require Import List Arith Bool PeanoNat.
@@ -61,7 +63,8 @@ Inductive res := ROk | RConnErr | RMsg (m : msg) | REmpty | RIndexErr.
 Inductive cpc := C_cb1 | C_cb2 | C_open | C_rem | C_rel | C_chko | C_chkr | C_sleep
                | C_orem | C_ocb1 | C_ocb2.     (* Orig variant only *)
 Inductive spc := S_peer | S_get | S_call (target : nat) | S_acq | S_ref | S_app | S_rel.
-Inductive rpc := R_ref | R_rel | R_len | R_sleep | R_acq2 | R_pop | R_rel2 (r : res).
+Inductive rpc := R_ref | R_len | R_pop | R_rel2 (r : res) | R_rel0 | R_sleep
+               | R_orel | R_olen | R_oacq2.     (* Orig variant only *)
 Inductive dpc := D_getl | D_call (target : nat) | D_ochk | D_orm | D_rchk | D_rrm | D_rpop | D_lpop | D_rel.
 Inductive pc := P0 | PC (c : cpc) | PS (c : spc) | PR (c : rpc) | PD (c : dpc).
 
@@ -160,21 +163,32 @@ Definition next (v : variant) (s : state) (th : thread) : option (label * thread
     | Send m, PS S_rel => Some (LRel, fin th ROk, [])
     (* ---- recv *)
     | Recv nb, P0 => Some (LAcq, goto th (PR R_ref), [])
-    | Recv nb, PR R_ref => Some (LQRef k, goto th (PR R_rel), [])
-    | Recv nb, PR R_rel => Some (LRel, goto th (PR R_len), [])
-    | Recv nb, PR R_len =>
+    | Recv nb, PR R_ref => Some (LQRef k, goto th (PR (match v with Fixed => R_len | Orig => R_orel end)), [])
+    | Recv nb, PR R_len =>            (* still inside the locked region *)
         let n := List.length (qget k (s_q s)) in
-        Some (LQLen k n,
-              if n =? 0 then (if nb then fin th REmpty else goto th (PR R_sleep)) else goto th (PR R_acq2),
-              [ELen k n])
-    | Recv nb, PR R_sleep => Some (LSleep, goto th P0, [])
-    | Recv nb, PR R_acq2 => Some (LAcq, goto th (PR R_pop), [])
+        Some (LQLen k n, goto th (PR (if n =? 0 then R_rel0 else R_pop)), [ELen k n])
     | Recv nb, PR R_pop =>
         match qget k (s_q s) with
         | [] => Some (LQPop k, goto th (PR (R_rel2 RIndexErr)), [])
         | m :: _ => Some (LQPop k, goto th (PR (R_rel2 (RMsg m))), [ERecv k m])
         end
     | Recv nb, PR (R_rel2 r) => Some (LRel, fin th r, [])
+    | Recv nb, PR R_rel0 => Some (LRel, if nb then fin th REmpty else goto th (PR R_sleep), [])
+    | Recv nb, PR R_sleep => Some (LSleep, goto th P0, [])
+    (* unrepaired recv: the length check and the pop are two locked regions *)
+    | Recv nb, PR R_orel =>
+        match v with Orig => Some (LRel, goto th (PR R_olen), []) | Fixed => None end
+    | Recv nb, PR R_olen =>
+        match v with
+        | Orig =>
+            let n := List.length (qget k (s_q s)) in
+            Some (LQLen k n,
+                  if n =? 0 then (if nb then fin th REmpty else goto th (PR R_sleep)) else goto th (PR R_oacq2),
+                  [ELen k n])
+        | Fixed => None
+        end
+    | Recv nb, PR R_oacq2 =>
+        match v with Orig => Some (LAcq, goto th (PR R_pop), []) | Fixed => None end
     (* ---- disconnect *)
     | Disconnect, P0 => Some (LAcq, goto th (PD D_getl), [])
     | Disconnect, PD D_getl =>
